@@ -40,6 +40,40 @@ def collections(s, n):
         K.collection_merge(s, docs, strict=False, ctx={'collection': c})
 
 
+def odd_timing_inserts(s, n_states):
+    """Multi-story inserts / appends / replaces whose k-th carried story has
+    timing metadata that cannot be turned into a number (empty tag, 0:45, text):
+    whatever the library does with it, a raise must leave the running order as it was."""
+    from ..build import E
+    idx = 0
+    odd = [lambda: E('TextTime'), lambda: E('TextTime', '0:45'), lambda: E('MediaTime', 'abc'),
+           lambda: E('StoryDuration'), lambda: E('StoryDuration', '1,5')]
+    for i in range(n_states):
+        rng = s.rng('odd', i)
+        S = K.STORY_NAMES[:rng.randint(1, 4)]
+        ro_txt = gen.grid_ro(S, rng.choice(K.LAYOUTS), pretty=rng.random() < 0.5)
+        for kind in ('roStoryInsert', 'EAStoryInsert', 'roStoryAppend', 'roStoryReplace', 'EAStoryReplace'):
+            for n in (2, 3, 4):
+                for k in range(n):
+                    idx += 1
+                    if not s.mine(idx):
+                        continue
+                    carried = []
+                    for j in range(n):
+                        st = gen.simple_story('N%d' % j, 1)
+                        if j == k:
+                            payload = st.find('mosExternalMetadata').find('mosPayload')
+                            for c in list(payload):
+                                payload.remove(c)
+                            payload.append(rng.choice(odd)())
+                        carried.append(st)
+                    kw = {'carried': carried}
+                    if kind != 'roStoryAppend':
+                        kw['target'] = rng.choice(S)
+                    K.run_case(s, ro_txt, kind, kw, ctx={'odd-timing-at': k, 'of': n})
+    s.hist['odd_timing_cases'] = idx
+
+
 def run(s):
     K.suite_workload(s)
     K.fixtures_workload(s)
@@ -58,6 +92,7 @@ def run(s):
     K.fuzz(s, 120 if q else 4000, K.kind_weights(1, 1, 0.2), steps=(5, 25),
            shape_weights=(0.45, 0.3, 0.2, 0.05), selfref=0.15)
     collections(s, 60 if q else 2000)
+    odd_timing_inserts(s, 3 if q else 60)
 
 
 replay = K.replay_transition
